@@ -31,6 +31,8 @@ def content_oracle(ctx):
                 if k == "str": sc = c
             if sc is None:
                 sc = df.columns[0]; df[sc] = [f"ds1-{R.randint(0, 3)}" for _ in range(len(df))]
+            if R.random() < 0.5:      # a few-valued text column (the feature selection treats those as categorical)
+                df[sc] = [f"ward-{R.randint(0, 3)}" for _ in range(len(df))]
             rare = "RARE-secret-zz"; df.loc[5, sc] = rare; pids.loc[5, "id"] = 7_999_999
             d = tempfile.mkdtemp(prefix="sdxblob")
             try:
@@ -46,6 +48,9 @@ def content_oracle(ctx):
                 for needle in (salt, salt.hex().encode()):
                     if needle in raw:
                         ctx.oracle_fail("the salt appears in the archive", {}, "salt-leak")
+                for m in names:
+                    if not m.endswith(".parquet") and rare.encode() in z.read(m):
+                        ctx.oracle_fail(f"the rare string (1 entity) is stored verbatim in the metadata member {m}", {"member": m}, "rare-string-meta")
                 inputs = {c: set(df[c].astype(str)) for c in df.columns}
                 for m in names:
                     if m.endswith(".parquet"):
@@ -64,6 +69,46 @@ def content_oracle(ctx):
         S._get_default_salt = saved
 
 
+def two_readers_oracle(ctx):
+    """Two readers in one process on archives of different datasets with the same column names: the second serves only its own dataset."""
+    import numpy as np
+    from syndiffix import SyndiffixBlobBuilder, SyndiffixBlobReader
+    R = ctx.rng
+    St = ctx.stream("O-two-readers", "two archives with the same column names and disjoint value ranges (the second built with max_cluster_size=2), one reader each in one "
+                    "process: every table the second reader serves (all column subsets) has its values inside the second dataset's range and its catalog holds only "
+                    "column sets stored in its own archive; non-trivial = every pair")
+    for _ in range(ctx.scale(1, 6)):
+        n = R.choice([150, 250]); names = ["x", "y", "z"]
+        rs = np.random.RandomState(R.randrange(2**31))
+        dfa = pd.DataFrame({c: rs.randint(0, 100, n) for c in names})
+        dfb = pd.DataFrame({c: rs.randint(5000, 5100, n) for c in names})
+        da = tempfile.mkdtemp(prefix="sdxblobA"); db = tempfile.mkdtemp(prefix="sdxblobB")
+        try:
+            with BS.quiet():
+                SyndiffixBlobBuilder("first", da).write(dfa)
+                SyndiffixBlobBuilder("second", db, max_cluster_size=2).write(dfb)
+                ra = SyndiffixBlobReader("first", da, cache_df_in_memory=True)
+                for cols in (["x", "y", "z"], ["x", "y"], ["z"]): ra.read(cols)
+                rb = SyndiffixBlobReader("second", db, cache_df_in_memory=True)
+            St.count((repr(dfa.values.tolist()), repr(dfb.values.tolist())), True, {"rows": n})
+            stored = set()
+            for m in zipfile.ZipFile(os.path.join(db, "second.sdxblob.zip")).namelist():
+                if m.endswith(".parquet"):
+                    stored.add(tuple(sorted(pd.read_parquet(io.BytesIO(zipfile.ZipFile(os.path.join(db, "second.sdxblob.zip")).read(m))).columns)))
+            known = {tuple(sorted(k)) for k in rb.catalog.catalog.keys()}
+            if not known <= stored:
+                ctx.oracle_fail(f"the second reader's catalog holds column sets {sorted(known - stored)} that its archive does not store",
+                                {"extra": [list(k) for k in sorted(known - stored)]}, "foreign-catalog")
+            for cols in (["x", "y", "z"], ["x", "y"], ["y", "z"], ["x", "z"], ["x"], ["y"], ["z"]):
+                with BS.quiet(): out = rb.read(cols)
+                lo, hi = float(out.min().min()), float(out.max().max())
+                if len(out) and (lo < 4900 or hi > 5200):
+                    ctx.oracle_fail(f"reader of the second archive served values in [{lo}, {hi}] for {cols}; its dataset lies in [5000, 5100)",
+                                    {"columns": cols, "lo": lo, "hi": hi}, "foreign-values")
+        finally:
+            shutil.rmtree(da, ignore_errors=True); shutil.rmtree(db, ignore_errors=True)
+
+
 def extraction(ctx):
     src = (REPO / "syndiffix" / "blob.py").read_text(); tree = ast.parse(src)
     bad = []
@@ -78,11 +123,12 @@ def extraction(ctx):
 def run(ctx, built):
     BS.stream_histories(ctx, built, ctx.scale(10, 150))
     content_oracle(ctx)
+    two_readers_oracle(ctx)
     extraction(ctx)
     # regression corpus: F6 (leftovers zipped / corrupt archive answered from leftovers) is covered by the histories b1 b2 / x o
 
 
 def search(ctx, seeds):
     sub = Ctx(ctx.pid, "quick", ctx.seed + 275604541)
-    BS.stream_histories(sub, False, 30); content_oracle(sub)
+    BS.stream_histories(sub, False, 30); content_oracle(sub); two_readers_oracle(sub)
     ctx.oracle_failures += sub.oracle_failures
